@@ -71,6 +71,19 @@ func NewIndividualNodesCompareOptions() *IndividualNodesCompareOptions {
 	}
 }
 
+// forNewComparison returns a copy of the options that does not share the state
+// of any other comparison.
+func (o *IndividualNodesCompareOptions) forNewComparison() *IndividualNodesCompareOptions {
+	options := *o
+	options.leftLen = 0
+	options.rightLen = 0
+	options.sentA = &sync.Map{}
+	options.sentB = &sync.Map{}
+	options.totalMutex = &sync.Mutex{}
+
+	return &options
+}
+
 func (o *IndividualNodesCompareOptions) notify(m Progress) {
 	defer func() {
 		// Catch "panic: send on closed channel". This means Notifier was closed
